@@ -222,6 +222,8 @@ def mechanism(mode, inp):
     if mode == "manifest":
         if any(m["k"] == "link" and m["n"] == ["conf"] for m in inp):
             return "definition-written-through-linked-conf"
+        if any(m["k"] == "link" and m["n"] in (["conf", "flowir_package.yaml"], ["conf", "dsl.yaml"]) for m in inp):
+            return "definition-written-through-linked-file"
         return "through-linked-folder" if any(m["k"] == "link" for m in inp) else "other"
     if any(m["k"] == "hard" and lex_outside(m["t"]) for m in inp):
         return "hardlink-target-outside"
@@ -296,17 +298,20 @@ def real_stage(sb, case, env):
     return raised, diff(before, after), sb.tree(sb.target), before, after
 
 
+MSRC = {"p": "p", "q": "q", "pa": "p/a", "pz": "p/z"}      # manifest sources: folders, an existing file, a missing file
+
+
 def real_manifest(sb, case, env):
     S, E = env["S"], env["E"]
     sb.fresh_target()
     manifest = {}
     for m in case["inp"]:
-        manifest[sb.render(m["n"])] = "%s:%s" % (m["t"], m["k"])
+        manifest[sb.render(m["n"])] = "%s:%s" % (MSRC[m["t"]], m["k"])
     before = sb.listing()
     raised = None
     try:
         pkg = S.ExperimentPackage.packageFromLocation(os.path.join(sb.l3, "wf.yaml"), manifest=dict(manifest))
-        pkg.expandPackageToDirectory(sb.target)
+        pkg.expandPackageToDirectory(sb.target, case["format"] if "format" in case else env.get("format"))
     except (E.PackageCreateError, E.FlowIRManifestException, E.InstanceCreateError):
         raised = "rejected"
     except E.ExperimentInvalidConfigurationError as e:
@@ -437,6 +442,8 @@ def execute(chk, mode, cases, sb, env, found, stagein=False):
     for case in cases:
         if updots(case) > len(SPARE):
             raise MachineryError("input with %d `..` segments exceeds the sandbox nesting" % updots(case))
+        if mode == "manifest" and "format" not in case:
+            case = dict(case, format=env.get("format"))       # kept in the replay file
         res = fn(sb, case, env)
         chk.evaluated((mode, json.dumps(case["inp"], sort_keys=True)))
         if judge(chk, mode, case, res, stats, found):
@@ -455,7 +462,7 @@ def execute(chk, mode, cases, sb, env, found, stagein=False):
 
 # =====================================================================================================================
 BASE = {"Mode": '"archive"', "Segs": '{"a", "b", "..", ""}', "MaxLen": "2", "Kinds": '{"file", "dir", "sym", "hard"}',
-        "LinkNameLen": "1", "LinkSegs": '{"a", "..", ""}', "LinkMaxLen": "2", "MaxMembers": "2", "Srcs": '{"p"}', "Pattern": '"any"', "LastKinds": '{"file"}',
+        "LinkNameLen": "1", "LinkSegs": '{"a", "..", ""}', "LinkMaxLen": "2", "MaxMembers": "2", "Srcs": '{"p"}', "Pattern": '"any"', "Format": '"flowir"', "LastKinds": '{"file"}',
         "Guard": '"resolve"', "Emit": "FALSE"}
 
 
@@ -477,12 +484,19 @@ def families(thorough):
            # a name; quick executes every hostile input of the family and every 10th of the others, thorough all of them
            ("archive", "chain" if thorough else "chain-sampled", chain),
            # c: a new unrelated name outside, e: a new sibling whose name has the target's name as prefix
-           ("manifest", "two", dict(Mode='"manifest"', MaxMembers="2", Segs='{"a", "c", "e", "..", ""}',
+           # (quick: pairs of entries over a, e only; the unrelated new name c appears in single entries)
+           ("manifest", "two", dict(Mode='"manifest"', MaxMembers="2", Segs='{"a", "c", "e", "..", ""}' if thorough else '{"a", "e", "..", ""}',
                                     Srcs='{"p"}' if not thorough else '{"p", "q"}')),
            # b: the EXISTING sibling with such a name (keys into it need 3 segments)
-           ("manifest", "sibling", dict(Mode='"manifest"', MaxMembers="1", MaxLen="3", Segs='{"b", "c", ".."}')),
+           ("manifest", "sibling", dict(Mode='"manifest"', MaxMembers="1", MaxLen="3", Segs='{"a", "b", "c", ".."}')),
            # an entry literally called conf: the workflow definition is written into what it deployed
            ("manifest", "conf", dict(Mode='"manifest"', MaxMembers="2", Segs='{"a", "conf", ".."}')),
+           # entries that name the stored definition file itself (copy / link to an existing / missing file), alone or after an
+           # entry called conf, for packages in both formats
+           ("manifest", "definition-flowir", dict(Mode='"manifest"', MaxMembers="2", Pattern='"conf-first"', Format='"flowir"',
+                                                  Segs='{"conf", "flowir_package.yaml", "dsl.yaml"}', Srcs='{"p", "pa", "pz"}')),
+           ("manifest", "definition-dsl", dict(Mode='"manifest"', MaxMembers="2", Pattern='"conf-first"', Format='"dsl"',
+                                               Segs='{"conf", "flowir_package.yaml", "dsl.yaml"}', Srcs='{"p", "pa", "pz"}')),
            ("archive", "sibling", dict(MaxMembers="1", MaxLen="3", Segs='{"a", "b", "e", ".."}', Kinds='{"file", "dir"}')),
            ("stage", "two", dict(Mode='"stage"', MaxMembers="2"))]
     if thorough:
@@ -561,6 +575,7 @@ def _run(chk, thorough, gen, only):
                 cases = [x for j, x in enumerate(cases) if x["hostile"] or j % 10 == 0]
             if len(cases) < 50 or not any(x["hostile"] for x in cases) or all(x["hostile"] for x in cases):
                 raise MachineryError("emission %s/%s: %d cases, degenerate classification" % (mode, label, len(cases)))
+        env["format"] = {'"dsl"': "dsl"}.get(kw.get("Format"), None)
         st = execute(chk, mode, cases, sb, env, found, stagein=(mode == "stage"))
         for k, v in st.items():
             if isinstance(v, int):
